@@ -54,232 +54,245 @@ def check(ctx):
     ClockM = model_class(cls, "ClockModel")
     MiniEval.GLOBALS = {}
 
-    # ---- seconds() is the controlled clock ---------------------------------------------------------
-    f = ctx.func(TASK, "Clock.seconds")
-    bad = None
-    try:
-        MiniEval.budget = 0
-        got = MiniEval.call(f, (ClockM(rightNow=12.5, calls=[]),), {})
-        if got != 12.5:
-            bad = f"seconds() returns {got!r} with rightNow = 12.5"
-    except (MiniRaise, MiniBudget, AttributeError, TypeError) as e:
-        bad = f"does not evaluate ({e})"
-    ctx.check(bad is None, "seconds/is-rightNow", C + ".seconds", f"the clock read by callLater/reset is not the one advance() moves: {bad}")
-
-    # ---- who may write `calls` ---------------------------------------------------------------------
-    acc = class_accesses(mod, cls, {"calls"}, receivers={"self"})
     sorters = set()
-    for a in acc:
-        fn = a.func.split(".", 1)[1].split(".")[0]
-        c = ctx.construct(f"{MODNAME}.{a.func}", a.node)
-        if fn == "__init__":
-            ctx.check(a.kind in ("assign", "rebind-empty"), "calls/ownership", c, "unexpected operation on `calls` in __init__")
-        elif a.kind == "append":
-            ctx.ok("calls/ownership", c)
-        elif a.kind == "sort":
-            sorters.add(fn)
-            ctx.ok("calls/ownership", c, "validated by model evaluation")
-        elif a.kind == "pop_first":
-            ctx.ok("calls/ownership", c)
-        elif a.kind == "remove" and fn == "callLater" and a.func.count(".") >= 2:
-            ctx.ok("calls/ownership", c, "canceller closure (checked by callLater/canceller-removes)")
-        elif a.kind in ("assign", "rebind-empty"):
-            ctx.violation("calls/ownership", c, "`calls` is re-bound to a new list: the cancellers of already scheduled calls hold the old "
-                          "list's bound `remove`, so cancelling them no longer unschedules them (a cancelled call runs)")
-        elif a.kind == "pop_last":
-            ctx.violation("calls/ownership", c, "calls are taken from the back of the ascending list: the latest call runs first")
-        elif a.kind in ("insert0", "appendleft", "insert"):
-            ctx.violation("calls/ownership", c, "a new call is not added at the end: with the stable sort, calls for the same time no "
-                          "longer run in creation order")
-        else:
-            ctx.violation("calls/ownership", c, f"operation of kind '{a.kind}' on `calls`")
-    ctx.floor("calls/ownership", len(acc), 3)
-
-    # ---- the sorter: ascending by scheduled time, stable, in place ------------------------------------
-    ctx.check(bool(sorters), "sort/ascending-stable", C, "no method sorts `calls`")
-    for name in sorted(sorters):
-        f = ms[name]
-        ctx.functions.add(f"{TASK}:Clock.{name}")
-        q = f"{C}.{name}"
+    with ctx.section("seconds"):
+        # ---- seconds() is the controlled clock ---------------------------------------------------------
+        f = ctx.func(TASK, "Clock.seconds")
         bad = None
-        n = 0
         try:
-            specs = [(3, 0), (1, 0), (1, 0), (0, 5), (2, -1), (1, 0), (4, -4), (0, 1)]
-            for k in range(1, 6):
-                for combo in itertools.permutations(specs[:6], k) if k <= 3 else [tuple(specs[i:i + k]) for i in range(0, 3)]:
-                    elems = [Elem(time=t, delayed_time=d, cancelled=0, called=0) for t, d in combo]
-                    lst = list(elems)
-                    clk = ClockM(rightNow=0.0, calls=lst)
-                    MiniEval.budget = 0
-                    MiniEval.call(f, (clk,), {})
-                    n += 1
-                    got = clk.calls
-                    want = sorted(elems, key=lambda e: e.time + e.delayed_time)
-                    if got is not lst:
-                        bad = "the list object is replaced instead of sorted in place"
-                    elif [id(e) for e in got] != [id(e) for e in want]:
-                        bad = (f"scheduled times {[t + d for t, d in combo]} (in creation order) come out as "
-                               f"{[e.time + e.delayed_time for e in got]}"
-                               + (" - ties not in creation order" if sorted(e.time + e.delayed_time for e in got) == [e.time + e.delayed_time for e in got] else ""))
+            MiniEval.budget = 0
+            got = MiniEval.call(f, (ClockM(rightNow=12.5, calls=[]),), {})
+            if got != 12.5:
+                bad = f"seconds() returns {got!r} with rightNow = 12.5"
+        except (MiniRaise, MiniBudget, AttributeError, TypeError) as e:
+            bad = f"does not evaluate ({e})"
+        ctx.check(bad is None, "seconds/is-rightNow", C + ".seconds", f"the clock read by callLater/reset is not the one advance() moves: {bad}")
+
+    with ctx.section("calls ownership"):
+        # ---- who may write `calls` ---------------------------------------------------------------------
+        acc = class_accesses(mod, cls, {"calls"}, receivers={"self"})
+        for a in acc:
+            fn = a.func.split(".", 1)[1].split(".")[0]
+            c = ctx.construct(f"{MODNAME}.{a.func}", a.node)
+            if fn == "__init__":
+                ctx.check(a.kind in ("assign", "rebind-empty"), "calls/ownership", c, "unexpected operation on `calls` in __init__")
+            elif a.kind == "append":
+                ctx.ok("calls/ownership", c)
+            elif a.kind == "sort":
+                sorters.add(fn)
+                ctx.ok("calls/ownership", c, "validated by model evaluation")
+            elif a.kind == "pop_first":
+                ctx.ok("calls/ownership", c)
+            elif a.kind == "remove" and fn == "callLater" and a.func.count(".") >= 2:
+                ctx.ok("calls/ownership", c, "canceller closure (checked by callLater/canceller-removes)")
+            elif a.kind in ("assign", "rebind-empty"):
+                ctx.violation("calls/ownership", c, "`calls` is re-bound to a new list: the cancellers of already scheduled calls hold the old "
+                              "list's bound `remove`, so cancelling them no longer unschedules them (a cancelled call runs)")
+            elif a.kind == "pop_last":
+                ctx.violation("calls/ownership", c, "calls are taken from the back of the ascending list: the latest call runs first")
+            elif a.kind in ("insert0", "appendleft", "insert"):
+                ctx.violation("calls/ownership", c, "a new call is not added at the end: with the stable sort, calls for the same time no "
+                              "longer run in creation order")
+            else:
+                ctx.violation("calls/ownership", c, f"operation of kind '{a.kind}' on `calls`")
+        ctx.floor("calls/ownership", len(acc), 3)
+
+    if not sorters:
+        sorters = {n for n, m in ms.items() if any(isinstance(c, ast.Call) and isinstance(c.func, ast.Attribute) and c.func.attr == "sort"
+                                                 and _self_attr(c.func.value, "calls") for c in ast.walk(m))}
+    with ctx.section("sorter"):
+        # ---- the sorter: ascending by scheduled time, stable, in place ------------------------------------
+        ctx.check(bool(sorters), "sort/ascending-stable", C, "no method sorts `calls`")
+        for name in sorted(sorters):
+            f = ms[name]
+            ctx.functions.add(f"{TASK}:Clock.{name}")
+            q = f"{C}.{name}"
+            bad = None
+            n = 0
+            try:
+                specs = [(3, 0), (1, 0), (1, 0), (0, 5), (2, -1), (1, 0), (4, -4), (0, 1)]
+                for k in range(1, 6):
+                    for combo in itertools.permutations(specs[:6], k) if k <= 3 else [tuple(specs[i:i + k]) for i in range(0, 3)]:
+                        elems = [Elem(time=t, delayed_time=d, cancelled=0, called=0) for t, d in combo]
+                        lst = list(elems)
+                        clk = ClockM(rightNow=0.0, calls=lst)
+                        MiniEval.budget = 0
+                        MiniEval.call(f, (clk,), {})
+                        n += 1
+                        got = clk.calls
+                        want = sorted(elems, key=lambda e: e.time + e.delayed_time)
+                        if got is not lst:
+                            bad = "the list object is replaced instead of sorted in place"
+                        elif [id(e) for e in got] != [id(e) for e in want]:
+                            bad = (f"scheduled times {[t + d for t, d in combo]} (in creation order) come out as "
+                                   f"{[e.time + e.delayed_time for e in got]}"
+                                   + (" - ties not in creation order" if sorted(e.time + e.delayed_time for e in got) == [e.time + e.delayed_time for e in got] else ""))
+                        if bad:
+                            break
                     if bad:
                         break
-                if bad:
-                    break
-        except MiniBudget:
-            bad = "does not terminate on a model list"
-        except (MiniRaise, AttributeError, TypeError, ValueError) as e:
-            bad = f"does not evaluate on a model clock ({type(e).__name__}: {e})"
-        ctx.check(bad is None, "sort/ascending-stable", q,
-                  f"`calls` is not sorted ascending by scheduled time (getTime), stably and in place: {bad}", detail=f"{n} model lists")
+            except MiniBudget:
+                bad = "does not terminate on a model list"
+            except (MiniRaise, AttributeError, TypeError, ValueError) as e:
+                bad = f"does not evaluate on a model clock ({type(e).__name__}: {e})"
+            ctx.check(bad is None, "sort/ascending-stable", q,
+                      f"`calls` is not sorted ascending by scheduled time (getTime), stably and in place: {bad}", detail=f"{n} model lists")
 
-    # ---- callLater ------------------------------------------------------------------------------------
-    f = ctx.func(TASK, "Clock.callLater")
-    q = C + ".callLater"
-    g = ctx.cfg(f)
-    ctors = [c for c in ast.walk(f) if isinstance(c, ast.Call) and (dotted(c.func) or "").split(".")[-1] == "DelayedCall"]
-    ctx.check(len(ctors) == 1, "callLater/creates-one-call", q, f"callLater constructs {len(ctors)} DelayedCall objects")
-    if len(ctors) == 1:
-        c = ctors[0]
-        init = ctx.func(BASE, "DelayedCall.__init__")
-        names = [a.arg for a in init.args.args][1:]
-        bound = {names[i]: a for i, a in enumerate(c.args) if i < len(names)}
-        bound.update({k.arg: k.value for k in c.keywords if k.arg})
-        prm = [a.arg for a in f.args.args][1:]
-        ctx.need(len(prm) >= 2 and f.args.vararg and f.args.kwarg, "Clock.callLater(self, delay, callable, *args, **kw)")
-        t = linform(bound["time"]) if "time" in bound else None
-        ok = t is not None and (lin_eq(t, ({"self.seconds()": 1, prm[0]: 1}, 0)) or lin_eq(t, ({"self.rightNow": 1, prm[0]: 1}, 0)))
-        ctx.check(ok, "callLater/time", ctx.construct(q, bound.get("time")), f"the call is scheduled for `{src(bound.get('time'))}` instead of seconds() + {prm[0]}")
-        for k, v in {"func": prm[1], "args": f.args.vararg.arg, "kw": f.args.kwarg.arg, "seconds": "self.seconds"}.items():
-            ctx.check(k in bound and src(bound[k]) == v, "callLater/wiring", f"{q} | {k}",
-                      f"DelayedCall is created with {k}={src(bound.get(k)) or '<default>'} instead of {v}"
-                      + (" (reset() would use the wall clock, not this Clock)" if k == "seconds" else ""))
-        canc = bound.get("cancel")
-        ok = canc is not None and src(canc) == "self.calls.remove"
-        if not ok and isinstance(canc, ast.Lambda) and len(canc.args.args) == 1:
-            b = canc.body
-            ok = isinstance(b, ast.Call) and src(b.func) == "self.calls.remove" and len(b.args) == 1 and src(b.args[0]) == canc.args.args[0].arg
-        ctx.check(ok, "callLater/canceller-removes", ctx.construct(q, canc) if canc is not None else q + " | cancel",
-                  "the canceller handed to DelayedCall does not remove the call from `calls`: advance() does not look at `cancelled`, "
-                  "so a cancelled call would still run and getDelayedCalls would still list it")
-        local = next((st.targets[0].id for st in ast.walk(f) if isinstance(st, ast.Assign) and st.value is c and isinstance(st.targets[0], ast.Name)), None)
-        apps = g.find(lambda x: isinstance(x, ast.Call) and isinstance(x.func, ast.Attribute) and x.func.attr == "append" and _self_attr(x.func.value, "calls")
-                      and len(x.args) == 1 and ((local and src(x.args[0]) == local) or x.args[0] is c))
-        wit = g.must_pass(g.ids_of(c), apps, exc=False)
-        ctx.check(bool(apps) and wit is None, "callLater/scheduled", q, "the new call is not appended to `calls` on every path: it never runs",
+    with ctx.section("callLater"):
+        # ---- callLater ------------------------------------------------------------------------------------
+        f = ctx.func(TASK, "Clock.callLater")
+        q = C + ".callLater"
+        g = ctx.cfg(f)
+        ctors = [c for c in ast.walk(f) if isinstance(c, ast.Call) and (dotted(c.func) or "").split(".")[-1] == "DelayedCall"]
+        ctx.check(len(ctors) == 1, "callLater/creates-one-call", q, f"callLater constructs {len(ctors)} DelayedCall objects")
+        if len(ctors) == 1:
+            c = ctors[0]
+            ctx.need(not any(isinstance(a, ast.Starred) for a in c.args) and all(k.arg for k in c.keywords), "DelayedCall(...) with explicit arguments")
+            init = ctx.func(BASE, "DelayedCall.__init__")
+            names = [a.arg for a in init.args.args][1:]
+            bound = {names[i]: a for i, a in enumerate(c.args) if i < len(names)}
+            bound.update({k.arg: k.value for k in c.keywords if k.arg})
+            prm = [a.arg for a in f.args.args][1:]
+            ctx.need(len(prm) >= 2 and f.args.vararg and f.args.kwarg, "Clock.callLater(self, delay, callable, *args, **kw)")
+            t = linform(bound["time"]) if "time" in bound else None
+            ok = t is not None and (lin_eq(t, ({"self.seconds()": 1, prm[0]: 1}, 0)) or lin_eq(t, ({"self.rightNow": 1, prm[0]: 1}, 0)))
+            ctx.check(ok, "callLater/time", ctx.construct(q, bound.get("time")), f"the call is scheduled for `{src(bound.get('time'))}` instead of seconds() + {prm[0]}")
+            for k, v in {"func": prm[1], "args": f.args.vararg.arg, "kw": f.args.kwarg.arg, "seconds": "self.seconds"}.items():
+                ctx.check(k in bound and src(bound[k]) == v, "callLater/wiring", f"{q} | {k}",
+                          f"DelayedCall is created with {k}={src(bound.get(k)) or '<default>'} instead of {v}"
+                          + (" (reset() would use the wall clock, not this Clock)" if k == "seconds" else ""))
+            canc = bound.get("cancel")
+            ok = canc is not None and src(canc) == "self.calls.remove"
+            if not ok and isinstance(canc, ast.Lambda) and len(canc.args.args) == 1:
+                b = canc.body
+                ok = isinstance(b, ast.Call) and src(b.func) == "self.calls.remove" and len(b.args) == 1 and src(b.args[0]) == canc.args.args[0].arg
+            ctx.check(ok, "callLater/canceller-removes", ctx.construct(q, canc) if canc is not None else q + " | cancel",
+                      "the canceller handed to DelayedCall does not remove the call from `calls`: advance() does not look at `cancelled`, "
+                      "so a cancelled call would still run and getDelayedCalls would still list it")
+            local = next((st.targets[0].id for st in ast.walk(f) if isinstance(st, ast.Assign) and st.value is c and isinstance(st.targets[0], ast.Name)), None)
+            apps = g.find(lambda x: isinstance(x, ast.Call) and isinstance(x.func, ast.Attribute) and x.func.attr == "append" and _self_attr(x.func.value, "calls")
+                          and len(x.args) == 1 and ((local and src(x.args[0]) == local) or x.args[0] is c))
+            wit = g.must_pass(g.ids_of(c), apps, exc=False)
+            ctx.check(bool(apps) and wit is None, "callLater/scheduled", q, "the new call is not appended to `calls` on every path: it never runs",
+                      witness=g.describe(wit))
+            rets = [s for s in ast.walk(f) if isinstance(s, ast.Return)]
+            ctx.check(bool(rets) and all(s.value is not None and (src(s.value) == local or s.value is c) for s in rets), "callLater/returns-call", q,
+                      "callLater does not return the DelayedCall it scheduled")
+
+    with ctx.section("getDelayedCalls"):
+        # ---- getDelayedCalls ------------------------------------------------------------------------------
+        f = ctx.func(TASK, "Clock.getDelayedCalls")
+        a, b = Elem(time=1, delayed_time=0.0, cancelled=0, called=0), Elem(time=2, delayed_time=0.0, cancelled=0, called=0)
+        bad = None
+        try:
+            MiniEval.budget = 0
+            got = list(MiniEval.call(f, (ClockM(rightNow=0.0, calls=[a, b]),), {}))
+            if sorted(map(id, got)) != sorted(map(id, (a, b))):
+                bad = f"two pending calls, {len(got)} returned"
+        except (MiniRaise, MiniBudget, AttributeError, TypeError) as e:
+            bad = f"does not evaluate ({e})"
+        ctx.check(bad is None, "getDelayedCalls/exactly-pending", C + ".getDelayedCalls", f"getDelayedCalls() does not list exactly the calls in `calls`: {bad}")
+
+    with ctx.section("advance"):
+        # ---- advance ---------------------------------------------------------------------------------------
+        f = ctx.func(TASK, "Clock.advance")
+        q = C + ".advance"
+        g = ctx.cfg(f)
+        prm = [x.arg for x in f.args.args][1:]
+        ctx.need(prm, "Clock.advance(self, amount)")
+        # (a) the clock is moved forward by `amount`, exactly once, before anything else
+        def is_time_write(n):
+            if n.kind != "stmt":
+                return False
+            st = n.ast
+            if isinstance(st, ast.AugAssign) and _self_attr(st.target, "rightNow"):
+                return True
+            return isinstance(st, ast.Assign) and any(_self_attr(t, "rightNow") for t in st.targets)
+        tw = g.ids(is_time_write)
+        ok = len(tw) == 1
+        if ok:
+            st = g.node(tw[0]).ast
+            if isinstance(st, ast.AugAssign):
+                ok = isinstance(st.op, ast.Add) and src(st.value) == prm[0]
+            else:
+                lf = linform(st.value)
+                ok = lf is not None and lin_eq(lf, ({"self.rightNow": 1, prm[0]: 1}, 0))
+        ctx.check(ok, "advance/moves-clock-once", q, f"advance({prm[0]}) does not add {prm[0]} to rightNow exactly once")
+        ctx.check(all(g.path([t], [t], strict=True) is None for t in tw), "advance/moves-clock-once", q + " | <not in a loop>", "the clock is moved inside a loop")
+        # sites
+        acc = accesses(f, "Clock.advance", {"calls"}, {"self"})
+        pops = [n for a_ in acc if a_.kind in ("pop_first", "pop_last", "pop_key") for n in g.ids_of(a_.node)]
+        ctx.check(len(pops) == 1, "advance/takes-head", q, f"{len(pops)} sites take a call out of `calls` (exactly one expected)")
+        outs = g.find(lambda x: isinstance(x, ast.Call) and isinstance(x.func, ast.Attribute) and x.func.attr == "func")
+        ctx.check(len(outs) == 1, "advance/calls-once", q, f"{len(outs)} call-outs `X.func(...)` in advance (exactly one expected)")
+        sorts = g.find(lambda x: _is_sort_call(x, sorters))
+        heads = g.find(lambda x: isinstance(x, ast.Subscript) and _self_attr(x.value, "calls")) + pops
+        heads = sorted(set(heads))
+        if len(pops) != 1 or len(outs) != 1:
+            return
+        pop, out = pops[0], outs[0]
+        pst = g.node(pop).ast
+        ctx.need(isinstance(pst, ast.Assign) and isinstance(pst.targets[0], ast.Name), "`call = self.calls.pop(0)`")
+        var = pst.targets[0].id
+        for t in tw:
+            ctx.check(g.dominates(t, pop) and all(g.dominates(t, h) for h in heads), "advance/clock-before-calls", ctx.construct(q, g.node(t).ast),
+                      "calls are examined before the clock has been moved: a call reached by this advance is left for the next one")
+        # (b) MUST-INTERVENE: a re-sort between entry / time change / call-out and the next look at the head
+        wit = g.path([g.entry], heads, avoid=sorts)
+        ctx.check(bool(sorts) and wit is None, "advance/sorted-before-head", q + " | <entry>",
+                  "the head of `calls` is examined without sorting first: a call reset()/delay()ed since the last advance is out of place",
                   witness=g.describe(wit))
-        rets = [s for s in ast.walk(f) if isinstance(s, ast.Return)]
-        ctx.check(bool(rets) and all(s.value is not None and (src(s.value) == local or s.value is c) for s in rets), "callLater/returns-call", q,
-                  "callLater does not return the DelayedCall it scheduled")
+        wit = g.path([out], heads, avoid=sorts, strict=True, edge_ok=lambda a_, b_, l: l != "exc")
+        ctx.check(wit is None, "advance/resorted-after-call", ctx.construct(q, g.node(out).ast),
+                  "after a call ran (it may have scheduled, reset or delayed calls) the head of `calls` is examined without re-sorting: "
+                  "calls run out of time order or are missed by this advance", witness=g.describe(wit))
+        # (c) boundary
+        guards = g.edge_guards(pop)
+        ctx.check(any(_self_attr(g.node(t).ast, "calls") and lab == "T" for t, lab in guards), "advance/loop-boundary", q + " | <calls non-empty>",
+                  "a call is popped although `calls` may be empty")
+        subst = {"self.rightNow": ({"self.seconds()": 1}, 0)}
+        for st in ast.walk(f):
+            if isinstance(st, ast.Assign) and isinstance(st.targets[0], ast.Name) and src(st.value) in ("self.seconds()", "self.rightNow") \
+                    and all(g.dominates(tw_, n) for tw_ in tw for n in g.ids_of(st)):
+                subst[st.targets[0].id] = ({"self.seconds()": 1}, 0)
+        want = (frozenset({("self.seconds()", 1), ("self.calls[0].getTime()", -1)}), 0, False)
+        nfs = [(lin_cmp(g.node(t).ast, subst, negate=(lab == "F")), t) for t, lab in guards]
+        nfs = [(nf, t) for nf, t in nfs if nf is not None]
+        hit = [t for nf, t in nfs if nf == want]
+        near = [(nf, t) for nf, t in nfs if nf != want]
+        ctx.check(bool(hit), "advance/loop-boundary", ctx.construct(q, g.node(near[0][1]).ast) if near and not hit else q + " | <head.getTime() <= now>",
+                  "a call is taken under the condition `" + (lin_cmp_text(near[0][0]) if near else "<none>") + "` instead of "
+                  "`now - head.getTime() >= 0`: a call scheduled exactly for the new time is not run by this advance, or a call is run "
+                  "by its unadjusted time (before a reset()/delay() took effect)")
+        # (d) the call-out
+        call = next(x for x in walk_local(g.node(out).ast) if isinstance(x, ast.Call) and isinstance(x.func, ast.Attribute) and x.func.attr == "func")
+        c = ctx.construct(q, call)
+        ctx.check(src(call.func.value) == var and g.dominates(pop, out), "advance/removed-before-call", c,
+                  "the function that runs does not belong to the call just removed from `calls` (a running call must not be listed as "
+                  "pending; a nested advance() would run it again)")
+        star = [src(x.value) for x in call.args if isinstance(x, ast.Starred)]
+        dstar = [src(k.value) for k in call.keywords if k.arg is None]
+        ctx.check(star == [f"{var}.args"] and dstar == [f"{var}.kw"] and len(call.args) == 1, "advance/arguments", c,
+                  "the function is not called with the call's own args / kw")
+        marks = g.ids(lambda n: n.kind == "stmt" and isinstance(n.ast, ast.Assign) and any(src(t) == f"{var}.called" for t in n.ast.targets)
+                      and isinstance(n.ast.value, ast.Constant) and bool(n.ast.value.value))
+        wit = g.path([pop], [out], avoid=marks)
+        ctx.check(bool(marks) and wit is None, "advance/called-before-call", c,
+                  "the function runs before `called` is set: cancel() from inside it tries to remove the call from `calls` again "
+                  "(ValueError) and reset()/delay() silently re-time a call that is no longer scheduled", witness=g.describe(wit))
+        loop_tests = [t for t, _ in guards]
+        wit = g.path([pop], loop_tests + [g.exit], avoid=[out], strict=True,
+                     edge_ok=lambda a_, b_, l: l != "exc" and not (g.node(a_).kind == "test" and src(g.node(a_).ast) == f"{var}.cancelled" and l == "T"))
+        ctx.check(wit is None, "advance/removed-call-runs", q + " | <after pop>", "a call removed from `calls` can be dropped without being run",
+                  witness=g.describe(wit))
+        wit = g.path([out], [g.exit], avoid=loop_tests, strict=True, edge_ok=lambda a_, b_, l: l != "exc")
+        ctx.check(wit is None, "advance/all-due-calls-run", q + " | <after the call>",
+                  "after running one call advance() can return without re-examining the head of `calls`: further calls reached by this "
+                  "advance are left for a later one", witness=g.describe(wit))
+        k = next(a_.kind for a_ in acc if a_.kind.startswith("pop_"))
+        ctx.check(k == "pop_first", "advance/takes-head", ctx.construct(q, g.node(pop).ast), "the call taken is not the first of the ascending list")
 
-    # ---- getDelayedCalls ------------------------------------------------------------------------------
-    f = ctx.func(TASK, "Clock.getDelayedCalls")
-    a, b = Elem(time=1, delayed_time=0.0, cancelled=0, called=0), Elem(time=2, delayed_time=0.0, cancelled=0, called=0)
-    bad = None
-    try:
-        MiniEval.budget = 0
-        got = list(MiniEval.call(f, (ClockM(rightNow=0.0, calls=[a, b]),), {}))
-        if sorted(map(id, got)) != sorted(map(id, (a, b))):
-            bad = f"two pending calls, {len(got)} returned"
-    except (MiniRaise, MiniBudget, AttributeError, TypeError) as e:
-        bad = f"does not evaluate ({e})"
-    ctx.check(bad is None, "getDelayedCalls/exactly-pending", C + ".getDelayedCalls", f"getDelayedCalls() does not list exactly the calls in `calls`: {bad}")
 
-    # ---- advance ---------------------------------------------------------------------------------------
-    f = ctx.func(TASK, "Clock.advance")
-    q = C + ".advance"
-    g = ctx.cfg(f)
-    prm = [x.arg for x in f.args.args][1:]
-    ctx.need(prm, "Clock.advance(self, amount)")
-    # (a) the clock is moved forward by `amount`, exactly once, before anything else
-    def is_time_write(n):
-        if n.kind != "stmt":
-            return False
-        st = n.ast
-        if isinstance(st, ast.AugAssign) and _self_attr(st.target, "rightNow"):
-            return True
-        return isinstance(st, ast.Assign) and any(_self_attr(t, "rightNow") for t in st.targets)
-    tw = g.ids(is_time_write)
-    ok = len(tw) == 1
-    if ok:
-        st = g.node(tw[0]).ast
-        if isinstance(st, ast.AugAssign):
-            ok = isinstance(st.op, ast.Add) and src(st.value) == prm[0]
-        else:
-            lf = linform(st.value)
-            ok = lf is not None and lin_eq(lf, ({"self.rightNow": 1, prm[0]: 1}, 0))
-    ctx.check(ok, "advance/moves-clock-once", q, f"advance({prm[0]}) does not add {prm[0]} to rightNow exactly once")
-    ctx.check(all(g.path([t], [t], strict=True) is None for t in tw), "advance/moves-clock-once", q + " | <not in a loop>", "the clock is moved inside a loop")
-    # sites
-    acc = accesses(f, "Clock.advance", {"calls"}, {"self"})
-    pops = [n for a_ in acc if a_.kind in ("pop_first", "pop_last", "pop_key") for n in g.ids_of(a_.node)]
-    ctx.check(len(pops) == 1, "advance/takes-head", q, f"{len(pops)} sites take a call out of `calls` (exactly one expected)")
-    outs = g.find(lambda x: isinstance(x, ast.Call) and isinstance(x.func, ast.Attribute) and x.func.attr == "func")
-    ctx.check(len(outs) == 1, "advance/calls-once", q, f"{len(outs)} call-outs `X.func(...)` in advance (exactly one expected)")
-    sorts = g.find(lambda x: _is_sort_call(x, sorters))
-    heads = g.find(lambda x: isinstance(x, ast.Subscript) and _self_attr(x.value, "calls")) + pops
-    heads = sorted(set(heads))
-    if len(pops) != 1 or len(outs) != 1:
-        return
-    pop, out = pops[0], outs[0]
-    pst = g.node(pop).ast
-    ctx.need(isinstance(pst, ast.Assign) and isinstance(pst.targets[0], ast.Name), "`call = self.calls.pop(0)`")
-    var = pst.targets[0].id
-    for t in tw:
-        ctx.check(g.dominates(t, pop) and all(g.dominates(t, h) for h in heads), "advance/clock-before-calls", ctx.construct(q, g.node(t).ast),
-                  "calls are examined before the clock has been moved: a call reached by this advance is left for the next one")
-    # (b) MUST-INTERVENE: a re-sort between entry / time change / call-out and the next look at the head
-    wit = g.path([g.entry], heads, avoid=sorts)
-    ctx.check(bool(sorts) and wit is None, "advance/sorted-before-head", q + " | <entry>",
-              "the head of `calls` is examined without sorting first: a call reset()/delay()ed since the last advance is out of place",
-              witness=g.describe(wit))
-    wit = g.path([out], heads, avoid=sorts, strict=True, edge_ok=lambda a_, b_, l: l != "exc")
-    ctx.check(wit is None, "advance/resorted-after-call", ctx.construct(q, g.node(out).ast),
-              "after a call ran (it may have scheduled, reset or delayed calls) the head of `calls` is examined without re-sorting: "
-              "calls run out of time order or are missed by this advance", witness=g.describe(wit))
-    # (c) boundary
-    guards = g.edge_guards(pop)
-    ctx.check(any(_self_attr(g.node(t).ast, "calls") and lab == "T" for t, lab in guards), "advance/loop-boundary", q + " | <calls non-empty>",
-              "a call is popped although `calls` may be empty")
-    subst = {"self.rightNow": ({"self.seconds()": 1}, 0)}
-    for st in ast.walk(f):
-        if isinstance(st, ast.Assign) and isinstance(st.targets[0], ast.Name) and src(st.value) in ("self.seconds()", "self.rightNow") \
-                and all(g.dominates(tw_, n) for tw_ in tw for n in g.ids_of(st)):
-            subst[st.targets[0].id] = ({"self.seconds()": 1}, 0)
-    want = (frozenset({("self.seconds()", 1), ("self.calls[0].getTime()", -1)}), 0, False)
-    nfs = [(lin_cmp(g.node(t).ast, subst, negate=(lab == "F")), t) for t, lab in guards]
-    nfs = [(nf, t) for nf, t in nfs if nf is not None]
-    hit = [t for nf, t in nfs if nf == want]
-    near = [(nf, t) for nf, t in nfs if nf != want]
-    ctx.check(bool(hit), "advance/loop-boundary", ctx.construct(q, g.node(near[0][1]).ast) if near and not hit else q + " | <head.getTime() <= now>",
-              "a call is taken under the condition `" + (lin_cmp_text(near[0][0]) if near else "<none>") + "` instead of "
-              "`now - head.getTime() >= 0`: a call scheduled exactly for the new time is not run by this advance, or a call is run "
-              "by its unadjusted time (before a reset()/delay() took effect)")
-    # (d) the call-out
-    call = next(x for x in walk_local(g.node(out).ast) if isinstance(x, ast.Call) and isinstance(x.func, ast.Attribute) and x.func.attr == "func")
-    c = ctx.construct(q, call)
-    ctx.check(src(call.func.value) == var and g.dominates(pop, out), "advance/removed-before-call", c,
-              "the function that runs does not belong to the call just removed from `calls` (a running call must not be listed as "
-              "pending; a nested advance() would run it again)")
-    star = [src(x.value) for x in call.args if isinstance(x, ast.Starred)]
-    dstar = [src(k.value) for k in call.keywords if k.arg is None]
-    ctx.check(star == [f"{var}.args"] and dstar == [f"{var}.kw"] and len(call.args) == 1, "advance/arguments", c,
-              "the function is not called with the call's own args / kw")
-    marks = g.ids(lambda n: n.kind == "stmt" and isinstance(n.ast, ast.Assign) and any(src(t) == f"{var}.called" for t in n.ast.targets)
-                  and isinstance(n.ast.value, ast.Constant) and bool(n.ast.value.value))
-    wit = g.path([pop], [out], avoid=marks)
-    ctx.check(bool(marks) and wit is None, "advance/called-before-call", c,
-              "the function runs before `called` is set: cancel() from inside it tries to remove the call from `calls` again "
-              "(ValueError) and reset()/delay() silently re-time a call that is no longer scheduled", witness=g.describe(wit))
-    loop_tests = [t for t, _ in guards]
-    wit = g.path([pop], loop_tests + [g.exit], avoid=[out], strict=True, edge_ok=lambda a_, b_, l: l != "exc")
-    ctx.check(wit is None, "advance/removed-call-runs", q + " | <after pop>", "a call removed from `calls` can be dropped without being run",
-              witness=g.describe(wit))
-    wit = g.path([out], [g.exit], avoid=loop_tests, strict=True, edge_ok=lambda a_, b_, l: l != "exc")
-    ctx.check(wit is None, "advance/all-due-calls-run", q + " | <after the call>",
-              "after running one call advance() can return without re-examining the head of `calls`: further calls reached by this "
-              "advance are left for a later one", witness=g.describe(wit))
-    k = next(a_.kind for a_ in acc if a_.kind.startswith("pop_"))
-    ctx.check(k == "pop_first", "advance/takes-head", ctx.construct(q, g.node(pop).ast), "the call taken is not the first of the ascending list")
 
 
 _ADV = ('        self.rightNow += amount\n        self._sortCalls()\n        while self.calls and self.calls[0].getTime() <= self.seconds():\n'
@@ -318,4 +331,19 @@ SILENT = [
     Silent("get-delayed-calls-copy", TASK, "        return self.calls\n", "        return list(self.calls)\n"),
     Silent("canceller-lambda", TASK, "            self.calls.remove,\n", "            lambda c: self.calls.remove(c),\n"),
     Silent("no-sort-in-callLater", TASK, "        self.calls.append(dc)\n        self._sortCalls()\n", "        self.calls.append(dc)\n"),
+]
+
+_POP = "            call = self.calls.pop(0)\n            call.called = 1\n"
+_POP_SKIP = "            call = self.calls.pop(0)\n            if call.cancelled:\n                continue\n            call.called = 1\n"
+MUTANTS += [
+    # lazy cancellation: cancelled calls stay in `calls` (getDelayedCalls lists them) and advance() skips them
+    Mutant("lazy-cancellation", TASK, _POP, _POP_SKIP, expect_rule="callLater/canceller-removes", more=[(TASK, "            self.calls.remove,\n", "            lambda c: None,\n")]),
+    # a violation in advance must be reported although callLater has a shape the rules cannot read
+    Mutant("no-resort-behind-unreadable-callLater", TASK, "            call.func(*call.args, **call.kw)\n            self._sortCalls()\n", "            call.func(*call.args, **call.kw)\n",
+           expect_rule="advance/resorted-after-call",
+           more=[(TASK, "        dc = DelayedCall(\n            self.seconds() + delay,", "        dc = DelayedCall(\n            *(),\n            self.seconds() + delay,")]),
+]
+SILENT += [
+    Silent("defensive-cancelled-skip", TASK, _POP, _POP_SKIP),
+    Silent("advance-early-return-when-empty", TASK, "        self.rightNow += amount\n        self._sortCalls()\n", "        self.rightNow += amount\n        if not self.calls:\n            return\n        self._sortCalls()\n"),
 ]
